@@ -3,7 +3,7 @@
    comparison of the generated index maps with the model's. *)
 From Coq Require Import List Arith Bool ZArith QArith Lia.
 Import ListNotations.
-Require Import Model.C12_Refine Model.C12_Geom Proofs.C12_RefineProofs Proofs.C12_GeomProofs Gen.C12Gen.
+Require Import Model.C12_Refine Model.C12_Geom Proofs.C12_RefineProofs Proofs.C12_GeomProofs Proofs.C12_BoundaryProofs Gen.C12Gen.
 Local Open Scope nat_scope.
 
 (* ------------------------------------------------------------------ counts: 2^d children *)
@@ -205,3 +205,23 @@ Lemma tet_fallback_differs :
   exists cls j k, Forall (fun c => c < 3) cls /\ j < 8 /\ k < length cls /\
                   gen_fallback_index (length cls) j k <> gen_tet_submap cls j k.
 Proof. exists [1; 0], 4, 0. repeat split; [repeat constructor; lia | lia | simpl; lia | vm_compute; discriminate]. Qed.
+
+(* ------------------------------------------------------------------ boundary maps of MeshTri1 / MeshQuad1 *)
+Lemma tri_bassign_ok : bassign_ok gen_tri_rfacets gen_tri_templates gen_tri_bassign = true.
+Proof. vm_compute. reflexivity. Qed.
+Lemma quad_bassign_ok : bassign_ok gen_quad_rfacets gen_quad_templates gen_quad_bassign = true.
+Proof. vm_compute. reflexivity. Qed.
+
+(* sort_t: with increasing cells and lexicographic facet numbering (f0 < f2 < f1) the children read by the boundary
+   map are increasing already, so re-sorting the cells of the refined mesh leaves them as they are *)
+Lemma tri_bassign_children : forallb (fun s => asg_c s <? 3) gen_tri_bassign = true.
+Proof. vm_compute. reflexivity. Qed.
+
+Lemma tri_children_sorted o c v0 v1 v2 f0 f1 f2 j :
+  cv c = [v0; v1; v2] -> cf c = [f0; f1; f2] -> v0 < v1 -> v1 < v2 -> v2 < offF o -> f0 < f2 -> f2 < f1 -> j < 3 ->
+  sort_nat (child o c (nth j gen_tri_templates [])) = child o c (nth j gen_tri_templates []).
+Proof.
+  intros Hv Hf H01 H12 H2o Hf02 Hf21 Hj.
+  destruct j as [|[|[|j]]]; try lia; unfold child; cbn [gen_tri_templates nth map resolve]; rewrite Hv, Hf; cbn [nth];
+    apply sort_nat_sorted3; lia.
+Qed.
